@@ -123,6 +123,30 @@ SCTClass ==
 (* log entries (leaf_input, extra_data): RFC 6962 3.4 / 4.6.  raw = ct.RawLogEntryFromLeaf (TLS level),   *)
 (* parsed = ct.LogEntryFromLeaf (also parses the logged certificate).  Whatever the verdict, an entry that *)
 (* IS returned must re-encode to exactly the input bytes.                                                  *)
+\* The DER dimension.  A DER object sits inside a TLS vector in four places: the logged certificate of an X.509 entry,
+\* the logged TBSCertificate of a precertificate entry (both in leaf_input), the submitted precertificate and the
+\* chain elements (extra_data).  Independently, (a) the object parses as strict DER / only with the parser's lenient
+\* fallback (e.g. a serial INTEGER that is not minimally encoded, as found in real logs) / not at all, and (b) the
+\* vector holds nothing but the object / bytes after its end.  The parsed entry embeds a parse of the two leaf_input
+\* objects: with bytes after the end that parse covers less than leaf_input carries, so the decoder has to fail
+\* whichever way the object itself parses.  A lenient parse without trailing bytes is not judged (if an entry is
+\* returned it must be consistent).  extra_data objects are opaque at this layer: not judged, but what is returned
+\* must re-encode to the input.
+DERWhere    == {"x509Cert", "precertTBS", "submittedPrecert", "chainElem"}
+DERParse    == {"strict", "laxOnly", "fatal"}
+DERTrailing == {"none", "some"}
+DimName(w, p, t) == w \o "_" \o p \o "_" \o t
+DimVerdict(w, p, t) ==
+  LET clean == p = "strict" /\ t = "none" IN
+  IF w \in {"submittedPrecert", "chainElem"}
+    THEN [raw |-> IF clean THEN "ok" ELSE "any", parsed |-> IF clean THEN "ok" ELSE "any"]
+    ELSE [raw    |-> IF clean THEN "ok" ELSE "any",
+          parsed |-> IF p = "fatal" \/ t = "some" THEN "error" ELSE IF clean THEN "ok" ELSE "any"]
+ParseDimExpect ==
+  [n \in {DimName(w, p, t) : w \in DERWhere, p \in DERParse, t \in DERTrailing} |->
+     LET c == CHOOSE c \in DERWhere \X DERParse \X DERTrailing : DimName(c[1], c[2], c[3]) = n
+     IN DimVerdict(c[1], c[2], c[3])]
+
 EntryExpect ==
   [ x509             |-> [raw |-> "ok",    parsed |-> "ok"],
     precert          |-> [raw |-> "ok",    parsed |-> "ok"],
@@ -153,6 +177,7 @@ EntryExpect ==
     chainNotDER      |-> [raw |-> "any",   parsed |-> "any"],
     leafVersionOther |-> [raw |-> "any",   parsed |-> "any"],
     jsonEntryType    |-> [raw |-> "any",   parsed |-> "any"] ]
+  @@ ParseDimExpect
 EntryClasses == DOMAIN EntryExpect
 
 Common == {"valid"} \cup JsonBad \cup {"trailingJunk"}
